@@ -63,6 +63,7 @@ pub fn generate(idx: &SrcIndex, prelude: &str, cfgv: &Value) -> EffectOut {
             .unwrap_or_default(),
         forbid_panic: strset(cfgv, "forbid_panic"),
         skip_files: strset(cfgv, "skip_files"),
+        old_bin_ledger: strset(cfgv, "old_bin_ledger"),
     };
     let held11 = strset(cfgv, "held11");
     let pend_on_true = strset(cfgv, "pend_on_true");
@@ -503,6 +504,7 @@ impl<'a> Printer<'a> {
         let i = Self::ind(d);
         match s {
             Sk::Comment(c) => self.out.push_str(&format!("{}// {}\n", i, c)),
+            Sk::Raw(c) => self.out.push_str(&format!("{}{}\n", i, c)),
             Sk::Ev { name, args, line, src } => {
                 let a: Vec<String> = match name.as_str() {
                     "ev_check" | "ev_use" | "ev_store_guard" => vec![gref(&args[0]), rootref(&args[1])],
